@@ -1,0 +1,32 @@
+// Copyright 2025 The JSON Schema Go Project Authors. All rights reserved.
+// Use of this source code is governed by an MIT-style
+// license that can be found in the LICENSE file.
+
+//go:build verif
+
+package jsonschema
+
+import (
+	"hash/maphash"
+	"reflect"
+	"sync/atomic"
+)
+
+// VerifHook, when set, is called at each observation point with the point's name.
+// It exists only under the "verif" build tag and must not change behavior.
+var VerifHook atomic.Pointer[func(point string)]
+
+func verifPoint(point string) {
+	if f := VerifHook.Load(); f != nil {
+		(*f)(point)
+	}
+}
+
+// VerifHashValue exposes the internal value hash used by uniqueItems, so that
+// the law Equal(x, y) => hash(x) == hash(y) can be checked directly.
+func VerifHashValue(seed maphash.Seed, v any) uint64 {
+	var h maphash.Hash
+	h.SetSeed(seed)
+	hashValue(&h, reflect.ValueOf(v))
+	return h.Sum64()
+}
